@@ -44,6 +44,7 @@ Definition maprange_classified : list (bytes * bytes * bytes) := [
   (b#"RenderContext.Clone", b#"ctx.blocks", b#"copies a map into a map under the same keys");
   (b#"RenderContext.Clone", b#"ctx.macros", b#"copies a map into a map under the same keys");
   (b#"RenderContext.EvaluateExpression", b#"n.items", b#"(no longer in the tree: hashKeyOrder gives the source order) ORDER SENSITIVE when two keys of a hash literal have the same text: modelled with the oracle behind the flag dt_hash_ranges_go_map, independent under dt_eok (distinct literal keys), refuted otherwise by C03_hash_map_order_refuted");
+  (b#"containsItself", b#"v", b#"existential search along the open path of a depth-first walk: true iff some map, slice or pointer reachable from the value is reachable from itself, whatever the order of the walk; the callers (ToString, toString, dump, format) replace the whole value by the constant text cyclicValueText, so neither the answer nor the printed placeholder depends on where the cycle is met first");
   (b#"RenderContext.contains", b#"tempMap", b#"existential test over a set built from a slice: true iff some element equals the item");
   (b#"RenderContext.contains", b#"rv", b#"existential test over MapKeys: true iff some key equals the item");
   (b#"Engine.GetCachedTemplateNames", b#"e.templates", b#"API result outside rendering; the cache checks compare it as a set (C15)");
